@@ -380,8 +380,9 @@ def gen_border(parts):
         elif re.fullmatch(r"v3\[(.+)\] = (.+)", s):
             m = re.fullmatch(r"v3\[(.+)\] = (.+)", s)
             key, val = "comp", (e.z(e.parse(m.group(1))), e.z(e.parse(m.group(2))))
-        elif re.fullmatch(r"v1\.vertices\.append\(v0\.vertices\[(.+)\]\)", s):
-            m = re.fullmatch(r"v1\.vertices\.append\(v0\.vertices\[(.+)\]\)", s)
+        elif re.fullmatch(r"v1\.vertices\.append\(v0\.vertices\[([^\]]+)\]\.copy\(\)\)", s):
+            # the polyline owns a COPY of the coordinates of surface vertex <index> (value semantics: C06)
+            m = re.fullmatch(r"v1\.vertices\.append\(v0\.vertices\[([^\]]+)\]\.copy\(\)\)", s)
             key, val = "src", e.z(e.parse(m.group(1)))
         elif s.startswith("v6 "):
             key, val = "step", None
